@@ -450,4 +450,69 @@ theorem unknown_pattern_inactive' (nOpts : List Nat) (imp : List Int → Nat) (x
   congr 1
   omega
 
+
+/-! ### the code as implemented (`eagerGetImpl` / `managerGetImpl`) -/
+
+theorem zeroImp_idem (dv : List Int) : zeroImp (zeroImp dv) = zeroImp dv := by
+  simp only [zeroImp, List.map_map]
+  apply List.map_congr_left
+  intro a _
+  simp only [Function.comp]
+  split <;> (try split) <;> omega
+
+theorem zeroImp_ge (dv : List Int) : ∀ a ∈ zeroImp dv, -1 ≤ a := by
+  intro a ha
+  simp only [zeroImp, List.mem_map] at ha
+  obtain ⟨b, -, rfl⟩ := ha
+  split <;> omega
+
+/-- What a direct hit means: the key equals the zero-imputed design vector of the hit row. -/
+theorem Table.hit_spec {t : Table} {nOpts : List Nat} (w : WFP t nOpts) (v : List Int) (i : Nat)
+    (h : t.hit v = some i) :
+    i < t.length ∧ v.take t.width = zeroImp (t.getD i ([], [])).1 := by
+  have hi := Table.hit_lt t v i h
+  refine ⟨hi, ?_⟩
+  unfold Table.hit at h
+  split at h
+  · rename_i h0
+    have := w.len _ (getD_mem t i hi)
+    rw [h0] at this
+    rw [List.length_eq_zero_iff.1 this, h0]; rfl
+  · have hp := List.find?_some h
+    simp only [List.getElem?_eq_getElem hi] at hp
+    have := (beq_iff_eq.1 hp).symm
+    simpa [List.getD_eq_getElem?_getD, List.getElem?_eq_getElem hi] using this
+
+section
+variable {t : Table} {nOpts : List Nat} {imp : List Int → Nat}
+
+theorem managerGetImpl_of_miss (x : List Int) (hmiss : t.hit (clampVec nOpts x) = none) :
+    managerGetImpl (some t) nOpts imp x = managerGet (some t) nOpts imp x := by
+  unfold managerGetImpl managerGet eagerGetImpl eagerGet
+  simp only [hmiss]
+
+theorem managerGetImpl_same' (w : WFP t nOpts) (x : List Int) (hx : nOpts.length ≤ x.length) :
+    (managerGetImpl (some t) nOpts imp x).1 = (managerGet (some t) nOpts imp x).1 ∧
+    (managerGetImpl (some t) nOpts imp x).2.2 = (managerGet (some t) nOpts imp x).2.2 := by
+  cases hh : t.hit (clampVec nOpts x) with
+  | none => rw [managerGetImpl_of_miss x hh]; exact ⟨rfl, rfl⟩
+  | some i =>
+    obtain ⟨hi, hk⟩ := Table.hit_spec w _ i hh
+    have hm := getD_mem t i hi
+    have hr := w.row _ hm
+    have hlen := w.len _ hm
+    have hl := clampVec_length nOpts x hx
+    unfold managerGetImpl managerGet eagerGetImpl eagerGet
+    simp only [hh, hk, hl]
+    refine ⟨?_, trivial⟩
+    rw [correctIsActive_fst _ (hr.padTo_ge _ _), correctIsActive_fst]
+    · rw [zeroImp_append, zeroImp_append, zeroImp_append, zeroImp_idem, zeroImp_padTo, hlen, zeroImp_replicate]
+    · intro a ha
+      simp only [List.mem_append, List.mem_replicate] at ha
+      rcases ha with (ha | ha) | ha
+      · exact zeroImp_ge _ a ha
+      · omega
+      · omega
+
+end
 end Adsg
